@@ -35,6 +35,7 @@ PROBES = [
     "probe.chunk_in_record_header", "probe.chunk_in_global_header", "probe.modified_then_written", "probe.written_twice",
     "probe.no_packet_selected", "probe.end_filter", "probe.skip_pcap", "probe.nondefault_header", "probe.local_used",
     "probe.command_mode", "probe.packet_gt_8192", "probe.end_only_program", "probe.nested_field_modified_then_written",
+    "probe.late_nonfilter_statement", "probe.global_function_called",
 ]
 
 M = 1000003
@@ -46,13 +47,15 @@ VARS = ["NP", "PL", "WL", "TSS", "TSU"]
 # generated filter language: AST (JSON-able), source rendering, reference evaluation
 
 PKTLESS = [False]
+NOVARS = [False]   # statements that run before the stream: no packet state, no NP
+NFUNCS = [0]       # number of global helper functions available to expressions
 ETH = [False]      # packets are Ethernet frames with an unparsed ethertype: ($1).src/dst/type usable
 MACS = ["11:22:33:44:55:66", "AA:BB:CC:DD:EE:FF", "00:00:00:00:00:00", "FF:FF:FF:FF:FF:FF", "02:42:AC:11:00:02"]
 
 
 def gen_iexpr(rng, depth, nglob, locs):
     if depth <= 0 or rng.chance(35):
-        k = rng.weighted([(25, "c"), (30, "v"), (15 if nglob else 0, "g"), (12 if locs else 0, "l"), (0 if PKTLESS[0] else 18, "f"),
+        k = rng.weighted([(25, "c"), (0 if NOVARS[0] else 30, "v"), (15 if nglob else 0, "g"), (12 if locs else 0, "l"), (0 if PKTLESS[0] else 18, "f"),
                           (8 if ETH[0] and not PKTLESS[0] else 0, "etype")])
         if k == "etype":
             return ["etype"]
@@ -65,8 +68,10 @@ def gen_iexpr(rng, depth, nglob, locs):
         if k == "l":
             return ["l", rng.choice(locs)]
         return ["f", rng.choice(FIELDS)]
-    op = rng.weighted([(35, "+"), (20, "-"), (20, "*"), (25, "%")])
+    op = rng.weighted([(35, "+"), (20, "-"), (20, "*"), (25, "%"), (14 if NFUNCS[0] else 0, "call")])
     a = gen_iexpr(rng, depth - 1, nglob, locs)
+    if op == "call":
+        return ["call", rng.below(NFUNCS[0]), a]
     if op == "*":
         return ["*", a, ["c", rng.choice([2, 3, 5, 16])]]
     if op == "%":
@@ -135,6 +140,10 @@ def src_iexpr(e):
         return "($0).%s" % e[1]
     if t == "etype":
         return "($1).type"
+    if t == "x":
+        return "x"
+    if t == "call":
+        return "fn%d(%s)" % (e[1], src_iexpr(e[2]))
     if t == "%":
         return "(%s %% %d)" % (src_iexpr(e[1]), e[2])
     return "(%s %s %s)" % (src_iexpr(e[1]), t, src_iexpr(e[2]))
@@ -182,8 +191,14 @@ def program_source(prog):
     lines = []
     for i, v in enumerate(prog["globals"]):
         lines.append("let g%d = %d;" % (i, v))
+    for i, body in enumerate(prog.get("funcs", [])):
+        lines.append("let fn%d = fn(x) { %s };" % (i, src_iexpr(body)))
     lines.append('eprintln("P%s"%s);' % (" {}" * len(prog["globals"]), "".join(", g%d" % i for i in range(len(prog["globals"])))))
-    for f in prog["filters"]:
+    late = prog.get("late", [])
+    for fi, f in enumerate(prog["filters"]):
+        for pos, st in late:
+            if pos == fi:
+                lines.append(src_stmts([st]))
         if f["act"] is None:
             lines.append("@ %s" % src_bexpr(f["pat"]))
         elif f["pat"] is None:
@@ -192,6 +207,9 @@ def program_source(prog):
             lines.append("@ %s { %s }" % (src_bexpr(f["pat"]), src_stmts(f["act"])))
     if prog["end"] is not None:
         lines.append("@ end { %s }" % src_stmts(prog["end"]))
+    for pos, st in late:
+        if pos >= len(prog["filters"]):
+            lines.append(src_stmts([st]))   # non-filter statements after the last filter still run once, first
     return "\n".join(lines) + "\n"
 
 
@@ -231,6 +249,16 @@ def ev_i(e, env):
         return env.pkt[e[1]]
     if t == "etype":
         return (env.data[12] << 8) | env.data[13]
+    if t == "x":
+        return env.x
+    if t == "call":
+        arg = ev_i(e[2], env)
+        saved = getattr(env, "x", None)
+        env.x = arg
+        try:
+            return ev_i(env.funcs[e[1]], env)
+        finally:
+            env.x = saved
     if t == "%":
         return _trunc_rem(ev_i(e[1], env), e[2])
     a, b = ev_i(e[1], env), ev_i(e[2], env)
@@ -287,8 +315,16 @@ def ev_stmts(stmts, env):
 def reference(prog, hdr, recs, skip):
     """-> (stderr_lines, stdout_bytes, info)"""
     env = Env(prog["globals"])
+    env.funcs = prog.get("funcs", [])
     env.err.append("P" + "".join(" %d" % v for v in env.g))
+    # every non-filter statement runs once, before the stream, in source order
+    ev_stmts([st for pos, st in sorted(prog.get("late", []), key=lambda t: t[0])], env)
+    for kind, text in env.out:
+        pass
     out = bytearray()
+    pre_out = b"".join(text.encode() for kind, text in env.out)   # prints of late statements (only with -s)
+    env.out = []
+    out += pre_out
     if not skip:
         out += pcapfmt.global_header(hdr)
     info = {"selected": [], "modified_written": 0, "twice": 0}
@@ -346,7 +382,20 @@ def gen_program(rng, skip, eth=False):
 
 def _gen_program(rng, skip):
     nglob = rng.range(0, 3)
-    prog = {"globals": [rng.choice([0, 1, 5, 100, 999]) for _ in range(nglob)], "filters": [], "end": None}
+    prog = {"globals": [rng.choice([0, 1, 5, 100, 999]) for _ in range(nglob)], "filters": [], "end": None, "funcs": [], "late": []}
+    # global helper functions: usable from patterns, actions and the end filter
+    nfun = rng.weighted([(55, 0), (30, 1), (15, 2)])
+    for i in range(nfun):
+        base = rng.weighted([(60, ["x"]), (40, ["+", ["x"], ["g", rng.below(nglob)]] if nglob else ["x"])])
+        prog["funcs"].append(["%", ["+", ["*", base, ["c", rng.choice([2, 3, 5])]], ["c", rng.choice([0, 1, 7])]], rng.choice([97, 1000, M])])
+    NFUNCS[0] = nfun
+    try:
+        return _gen_program2(rng, skip, nglob, prog)
+    finally:
+        NFUNCS[0] = 0
+
+
+def _gen_program2(rng, skip, nglob, prog):
     nf = rng.range(1, 5)
     end_only = rng.chance(7)   # a program whose only filter is `@ end`
     if end_only:
@@ -374,6 +423,23 @@ def _gen_program(rng, skip):
             finally:
                 PKTLESS[0] = False
         prog["end"] = st
+    # non-filter statements placed between / after the filters: they still run exactly once, before the stream
+    if rng.chance(35):
+        PKTLESS[0] = True
+        NOVARS[0] = True
+        try:
+            for _ in range(rng.range(1, 2)):
+                pos = rng.range(1, len(prog["filters"]) + 1)
+                k = rng.weighted([(60, "eprint"), (40 if nglob else 0, "gset")])
+                if k == "eprint":
+                    st1 = ["eprint", "Q%d" % pos, [gen_iexpr(rng, 1, nglob, [])]]
+                else:
+                    st1 = ["gset", rng.below(nglob), ["%", gen_iexpr(rng, 2, nglob, []), M]]
+                prog["late"].append([pos, st1])
+            prog["late"].sort(key=lambda t: t[0])
+        finally:
+            PKTLESS[0] = False
+            NOVARS[0] = False
     return prog
 
 
@@ -392,7 +458,8 @@ def generate(rng, tier, idx):
     skip = rng.chance(35)
     plain_hdr = rng.chance(40)
     hdr = pcapfmt.gen_header(rng, plain=plain_hdr)
-    n = rng.weighted([(8, 0), (12, 1), (30, rng.range(2, 6)), (35, rng.range(6, 20)), (15, rng.range(20, 40))])
+    deep = tier == "thorough"
+    n = rng.weighted([(8, 0), (12, 1), (30, rng.range(2, 6)), (35, rng.range(6, 20)), (15, rng.range(20, 40)), (10 if deep else 0, 40)])
     recs = [pcapfmt.gen_record(rng, hdr["snaplen"], allow_huge=rng.chance(3)) for _ in range(n)]
     eth = hdr["snaplen"] >= 64 and rng.chance(35)
     if eth:
@@ -550,6 +617,10 @@ def check(model, results):
         inc("probe.command_mode")
     if not model["prog"]["filters"]:
         inc("probe.end_only_program")
+    if model["prog"].get("late"):
+        inc("probe.late_nonfilter_statement")
+    if "fn0(" in program_source(model["prog"]).split("eprintln(\"P", 1)[-1]:
+        inc("probe.global_function_called")
     if any(r["data"]["n"] > 8192 for r in recs):
         inc("probe.packet_gt_8192")
     inc("ops.packets", len(recs))
